@@ -56,6 +56,39 @@ def family(quick):
                 add(f"sw{n}:{''.join(SW[i] for i in m)}", [("v", vt(n)), ("w", wt)], vt(n), [A.estmt(A.asg(A.swz(V("v"), m), w)), A.ret(V("v"))])
                 add(f"swc{n}:{''.join(SW[i] for i in m)}", [("v", vt(n)), ("w", wt)], vt(n),
                     [A.decl("u", vt(n), V("v")), A.estmt(A.asg(A.swz(V("u"), m), w)), A.ret(B("+", V("v"), B("*", V("u"), L(100))))])
+    # ---- nested selections as assignment targets: v.zyx.xy = w writes v.z and v.y; v.zyx[0] = x writes v.z
+    for n in (3, 4):
+        for k1 in (2, 3):
+            for m1 in itertools.permutations(range(n), k1):
+                for k2 in range(1, k1 + 1):
+                    for m2 in itertools.permutations(range(k1), k2):
+                        nm = ''.join(SW[i] for i in m1) + "." + ''.join(SW[i] for i in m2)
+                        add(f"swn{n}:{nm}", [("v", vt(n)), ("w", rt_of("float", k2))], vt(n), [A.estmt(A.asg(A.swz(A.swz(V("v"), m1), m2), V("w"))), A.ret(V("v"))])
+                add(f"swni{n}:{''.join(SW[i] for i in m1)}", [("v", vt(n)), ("x", FLOAT)], vt(n), [A.estmt(A.asg(A.idx(A.swz(V("v"), m1), L(k1 - 1)), V("x"))), A.ret(V("v"))])
+    for m1, m2 in (((2, 1, 0), (0, 1)), ((1, 2), (1,)), ((0, 2, 1), (2, 0))):
+        mt3 = A.mat("float", 3, 3)
+        add(f"swnm:{''.join(SW[i] for i in m1)}.{''.join(SW[i] for i in m2)}", [("m", mt3), ("w", rt_of("float", len(m2)))], mt3,
+            [A.estmt(A.asg(A.swz(A.swz(A.idx(V("m"), L(1)), m1), m2), V("w"))), A.ret(V("m"))])
+        add(f"swnc:{''.join(SW[i] for i in m1)}.{''.join(SW[i] for i in m2)}", [("v", vt(3)), ("w", rt_of("float", len(m2)))], vt(3),
+            [A.estmt(A.casg("*", A.swz(A.swz(V("v"), m1), m2), V("w"))), A.ret(V("v"))])
+    # ---- a callee that writes into its vector / matrix parameter: the caller's variable is a different one
+    mt3 = A.mat("float", 3, 3)
+    callee_writes = [("melem", mt3, [A.estmt(A.asg(A.idx(A.idx(V("q"), L(1)), L(2)), V("x")))], A.idx(A.idx(V("q"), L(1)), L(2))),
+                     ("mrow", mt3, [A.estmt(A.asg(A.idx(V("q"), L(0)), A.cons(vt(3), [V("x"), V("x"), L(1)])))], A.idx(A.idx(V("q"), L(0)), L(0))),
+                     ("mdyn", mt3, [A.estmt(A.asg(A.idx(A.idx(V("q"), V("k")), V("k")), V("x")))], A.idx(A.idx(V("q"), L(1)), L(1))),
+                     ("vidx", vt(4), [A.estmt(A.asg(A.idx(V("q"), L(2)), V("x")))], A.idx(V("q"), L(2))),
+                     ("vswz", vt(4), [A.estmt(A.asg(A.swz(V("q"), (3, 0)), A.cons(vt(2), [V("x"), V("x")])))], A.idx(V("q"), L(3))),
+                     ("vwhole", vt(3), [A.estmt(A.asg(V("q"), B("*", V("q"), V("x"))))], A.idx(V("q"), L(0)))]
+    for nm, t, stmts, read in callee_writes:
+        callee = A.func("h", [("q", t), ("x", FLOAT), ("k", INT)], FLOAT, A.block(stmts + [A.ret(read)]))
+        for shape in ("param", "local", "twice"):
+            if shape == "param":
+                body = [A.decl("r", FLOAT, A.call("h", [V("a"), V("x"), L(1)])), A.ret(V("a"))]
+            elif shape == "local":
+                body = [A.decl("c", t, V("a")), A.decl("r", FLOAT, A.call("h", [V("c"), V("x"), L(1)])), A.ret(B("+", V("c"), V("a")))]
+            else:
+                body = [A.decl("r", FLOAT, A.call("h", [V("a"), V("x"), L(1)])), A.decl("r2", FLOAT, A.call("h", [V("a"), V("r"), L(2)])), A.ret(V("a"))]
+            out.append((f"callee-{nm}:{shape}", A.prog([], [callee, A.func("f", [("a", t), ("x", FLOAT)], t, A.block(body), True)])))
     # ---- constructors: partitions of n components into scalars (1) and smaller vectors
     def parts(n):
         if n == 0:
